@@ -193,8 +193,8 @@ package ugo
 //@ func (*errHandlers).findFinally
 //@ params t upto
 //@ results p
-//@ requires t == nil || len(t.handlers) < 1<<40
 //@ ensures[nil]     t == nil ==> p == 0
+//@ ensures[sane]    old(specHSane(t)) ==> specHSane(t)
 //@ ensures[shrink]  t != nil ==> len(t.handlers) <= old(len(t.handlers)) && specPrefix(t.handlers, old(verifrt.Snap(t.handlers)), len(t.handlers))
 //@ ensures[found]   t != nil && p != 0 ==> len(t.handlers) >= 1 && len(t.handlers)-1 >= upto && t.handlers[len(t.handlers)-1].finally == p
 //@ ensures[none]    t != nil && p == 0 ==> len(t.handlers) == 0 || len(t.handlers)-1 < upto
@@ -675,7 +675,8 @@ package ugo
 //@ params vm err noTrace
 //@ results r
 //@ requires vmLoopInv(vm)
-//@ ensures[handled] r == nil ==> vmLoopInv(vm)
+//@ ensures[handled] r == nil ==> vmFrameInv(vm)
+//@ ensures[sp] r == nil ==> vm.sp >= 0
 //@ panics vmPanicPoint(vm)
 //@ loop 0 invariant -1 <= index && index <= old(vm.frameIndex)-2 && frame == nil && vm.curFrame == old(vm.curFrame) && vm.frameIndex == old(vm.frameIndex) && vm.sp == old(vm.sp)
 //@ loop 0 invariant[parentfn] forall j int :: 0 <= j && j <= index ==> vm.frames[j].fn != nil
@@ -690,7 +691,8 @@ package ugo
 //@ params vm frame err
 //@ results r
 //@ requires vmLoopInv(vm) && frame == vm.curFrame && frame.errHandlers != nil && len(frame.errHandlers.handlers) >= 1
-//@ ensures[handled] r == nil ==> vmLoopInv(vm)
+//@ ensures[handled] r == nil ==> vmFrameInv(vm)
+//@ ensures[sp] r == nil ==> vm.sp >= 0
 //@ panics vmPanicPoint(vm)
 //@ loop 0 invariant vm.sp == old(vm.sp) && vm.curFrame == old(vm.curFrame) && vm.frameIndex == old(vm.frameIndex)
 //@ split returns
@@ -701,18 +703,46 @@ package ugo
 //@ params vm err
 //@ results r
 //@ requires vmLoopInv(vm)
-//@ ensures[handled] r == nil ==> vmLoopInv(vm)
+//@ ensures[handled] r == nil ==> vmFrameInv(vm)
+//@ ensures[sp] r == nil ==> vm.sp >= 0
 //@ panics vmPanicPoint(vm)
 //@ split returns
 //@ modifies *
 //@ property C06
 
+//@ func+ (*VM).xOpThrow
+//@ params vm
+//@ results r
+//@ requires vmLoopInv(vm)
+//@ ensures[inv] r == nil ==> vmFrameInv(vm)
+//@ ensures[sp] r == nil ==> vm.sp >= 0
+//@ panics vmPanicPoint(vm)
+//@ split returns preds
+//@ modifies *
+//@ property C06
+
+// A call opcode, successful or not, leaves the interpreter invariant intact
+// (in particular a rejected call leaves the frame index alone).
+//@ func+ (*VM).xOpCall, (*VM).xOpCallName, (*VM).xOpCallAny, (*VM).xOpCallCompiled, (*VM).xOpCallObject, (*VM).xOpCallExCaller
+//@ requires vmLoopInv($recv)
+//@ ensures[inv] vmFrameInv($recv)
+//@ ensures[sp] $recv.sp >= 0
+//@ panics vmPanicPoint($recv)
+//@ split returns preds
+//@ modifies *
+//@ property C06
+
+// The interpreter loop, one run per opcode (`loop 0 split`): every arm
+// preserves the frame/handler invariant and a non-negative stack pointer, and
+// wherever an arm (or anything it calls) may panic, vmPanicPoint holds.
 //@ func (*VM).loop
 //@ params vm
 //@ requires vmLoopInv(vm)
-//@ loop 0 invariant vmLoopInv(vm)
+//@ loop 0 invariant[frames] vmFrameInv(vm)
+//@ loop 0 invariant[sp] vm.sp >= 0
+//@ uses (*errHandlers).findFinally
 //@ loop 0 panicpoint
 //@ loop 0 split byte vm.curInsts[vm.ip+1]: 0..43, other
 //@ panics vmPanicPoint(vm)
 //@ modifies *
-//@ property C99
+//@ property C06
